@@ -3,7 +3,7 @@
 Require Import AT.Model.Base AT.Model.Rose AT.Model.Iter AT.Spec.IterSpec.
 Require AT.Proofs.IterC05.
 From Coq Require Import Permutation.
-Open Scope Z_scope.
+Local Open Scope Z_scope.
 
 Notation no_filter := (fun _ : id => true).
 Notation no_stop := (fun _ : id => false).
